@@ -77,9 +77,9 @@ Proof. unfold k_sigmoid. rewrite !dot_rdot, rdot_sym. reflexivity. Qed.
 
 (* ---- the linear Gram matrix is positive semi-definite -------------------------------------- *)
 Lemma rsum_plus {A} (f g : A -> R) l : rsum (fun a => f a + g a) l = rsum f l + rsum g l.
-Proof. induction l; cbn; try lra. rewrite IHl. lra. Qed.
+Proof. induction l as [|a l IH]; cbn; [lra | rewrite IH; lra]. Qed.
 Lemma rsum_scal {A} (k : R) (f : A -> R) l : rsum (fun a => k * f a) l = k * rsum f l.
-Proof. induction l; cbn; try lra. rewrite IHl. lra. Qed.
+Proof. induction l as [|a l IH]; cbn; [lra | rewrite IH; lra]. Qed.
 Lemma rsum_zero {A} (f : A -> R) l : (forall a, In a l -> f a = 0) -> rsum f l = 0.
 Proof.
   induction l as [|a l IH]; intros H; cbn; auto.
@@ -143,4 +143,37 @@ Proof.
   destruct (max_len_bound cxs) as [n Hn].
   pose proof (gram_psd_n n cxs Hn) as H. unfold gramQ in H.
   erewrite rsum_ext; [exact H|]. intros a _. apply rsum_ext. intros b _. rewrite k_linear_closed. reflexivity.
+Qed.
+
+(* ---- RBF: what is proved (the general Gram statement is not) --------------------------------- *)
+Lemma rsqdist_nonneg : forall x y, 0 <= rsqdist x y.
+Proof.
+  induction x as [|a x IH]; intros [|b y]; cbn; try lra.
+  specialize (IH y). pose proof (Rle_0_sqr (a - b)) as H. unfold Rsqr in H. lra.
+Qed.
+Lemma rsqdist_self : forall x, rsqdist x x = 0.
+Proof. induction x as [|a x IH]; cbn; [reflexivity | rewrite IH; lra]. Qed.
+
+Lemma exp_nonpos_le_1 z : z <= 0 -> 0 < exp z <= 1.
+Proof.
+  intros Hz. split; [apply exp_pos|].
+  destruct (Req_dec z 0) as [->|Hn]; [rewrite exp_0; lra|].
+  rewrite <- exp_0. left. apply exp_increasing. lra.
+Qed.
+
+Lemma rbf_two_point_psd gamma x y c1 c2 : 0 <= gamma ->
+  k_rbf ROps gamma x x = 1 /\ 0 < k_rbf ROps gamma x y <= 1 /\
+  0 <= c1 * c1 * k_rbf ROps gamma x x + c1 * c2 * k_rbf ROps gamma x y
+       + c2 * c1 * k_rbf ROps gamma y x + c2 * c2 * k_rbf ROps gamma y y.
+Proof.
+  intros Hg. rewrite !k_rbf_closed, !rsqdist_self, (rsqdist_sym y x), Rmult_0_r, exp_0.
+  assert (Hk : 0 < exp (- gamma * rsqdist x y) <= 1).
+  { apply exp_nonpos_le_1. pose proof (rsqdist_nonneg x y). nra. }
+  set (k := exp (- gamma * rsqdist x y)) in *.
+  split; [reflexivity|]. split; [exact Hk|].
+  replace (c1 * c1 * 1 + c1 * c2 * k + c2 * c1 * k + c2 * c2 * 1)
+    with (k * ((c1 + c2) * (c1 + c2)) + (1 - k) * (c1 * c1 + c2 * c2)) by ring.
+  pose proof (Rle_0_sqr (c1 + c2)) as H1. pose proof (Rle_0_sqr c1) as H2. pose proof (Rle_0_sqr c2) as H3.
+  unfold Rsqr in *.
+  apply Rplus_le_le_0_compat; apply Rmult_le_pos; lra.
 Qed.
